@@ -105,15 +105,20 @@ def check_cursors(rep, fs, prop, entry_of, prog=None):
 def cursor_floor(prog, rep, pub, per_backend):
     """every backend path of the public function must reach at least `per_backend` Z1 instances (the stride routine's
     cursor and the per-item segment): counted per path, so that sharing one loop between backends is not a loss"""
+    best = {}
     for p in backend_paths(prog, pub):
         t = p.func()
         if not isinstance(t, Func) or 'cupy' in p.backend or t.module is not pub.module:
             continue
         names = {g.qualname for g in reachable(prog, t, 6)}
         got = sum(1 for ob in rep.obs if ob.rule == 'Z1' and getattr(ob, 'func', None) in names)
+        # several calls may sit under one backend test (an alignment helper, then the implementation): the
+        # implementation is the one that reaches the per-item loops
+        best[p.backend] = max(best.get(p.backend, 0), got)
+    for backend, got in sorted(best.items()):
         if got < per_backend:
             rep.incomplete.append('rule Z1 matched %d instances on the %s path of %s, below the confirmed floor %d'
-                                  % (got, p.backend, pub.name, per_backend))
+                                  % (got, backend, pub.name, per_backend))
 
 
 def _loop_index(lp):
@@ -263,9 +268,30 @@ class OrderEnv:
                 for k in set(e1) | set(e2):
                     a, b = e1.get(k), e2.get(k)
                     self.env[k] = a if a == b else (USER if USER in (a, b) else None)
+            elif isinstance(s, ast.For) and isinstance(s.target, ast.Name) and self._filter_loop(s) is not None:
+                # `for z in ITER: if cond: out.append(z)`: an order-preserving selection of ITER, like the comprehension
+                self.env[self._filter_loop(s)] = self.order_of(s.iter)
             elif isinstance(s, (ast.For, ast.While, ast.With, ast.Try)):
                 for fld in ('body', 'orelse', 'finalbody'):
                     self.run(getattr(s, fld, []) or [], sinks)
+
+    def _filter_loop(self, lp):
+        """name of the list that receives (only) the loop variable itself, appended in iteration order"""
+        apps = [c_ for c_ in calls(lp) if short(c_) == 'append' and isinstance(c_.func, ast.Attribute) and isinstance(c_.func.value, ast.Name)]
+        if len(apps) != 1 or len(apps[0].args) != 1 or norm(apps[0].args[0]) != lp.target.id:
+            return None
+        # nothing else in the body but conditions / continue around the append
+        for n_ in ast.walk(ast.Module(body=lp.body, type_ignores=[])):
+            if isinstance(n_, (ast.Assign, ast.AugAssign, ast.For, ast.While, ast.Break)):
+                return None
+            if isinstance(n_, ast.Call) and n_ is not apps[0] and short(n_) in ('insert', 'extend', 'append', 'sort', 'reverse'):
+                return None
+        name = apps[0].func.value.id
+        # the list starts empty just before (a literal [] assigned in this function)
+        vals = [v for v in self.f.local_assigns().get(name, []) if isinstance(v, ast.AST)]
+        if len(vals) != 1 or not (isinstance(vals[0], ast.List) and not vals[0].elts):
+            return None
+        return name
 
 
 def iterated_param(t):
@@ -1059,7 +1085,7 @@ def check_crosstab_merge(prog, rep, m, entry):
 
 def check_alignment(prog, rep, m, pubname, entry):
     """Z9: blocks of zones and values are zipped pairwise -> their chunks must be aligned on every dask path"""
-    pub = m.funcs[pubname]
+    pub = _view(prog, m.funcs[pubname])       # the alignment may have been moved into a small helper
     n = 0
     # does the dask path zip delayed blocks?
     zips = []
